@@ -77,10 +77,11 @@ def rand_tree(rng, depth=0, max_depth=5, in_meta=False, palette=None):
     return [tag, attrs, merged]
 
 
-def to_etree(t):
+def to_etree(t, ns=None):
     from lxml import etree
     tag, attrs, kids = t
-    el = etree.Element('{%s}%s' % (AKN, tag), nsmap={None: AKN})
+    ns = ns or AKN
+    el = etree.Element('{%s}%s' % (ns, tag), nsmap={None: ns})
     for k, v in attrs.items():
         el.set(k, v)
     last = None
@@ -91,14 +92,15 @@ def to_etree(t):
             else:
                 last.tail = (last.tail or '') + k
         else:
-            last = to_etree_child(k, el)
+            last = to_etree_child(k, el, ns)
     return el
 
 
-def to_etree_child(t, parent):
+def to_etree_child(t, parent, ns=None):
     from lxml import etree
     tag, attrs, kids = t
-    el = etree.SubElement(parent, '{%s}%s' % (AKN, tag))
+    ns = ns or AKN
+    el = etree.SubElement(parent, '{%s}%s' % (ns, tag))
     for k, v in attrs.items():
         el.set(k, v)
     last = None
@@ -109,7 +111,7 @@ def to_etree_child(t, parent):
             else:
                 last.tail = (last.tail or '') + k
         else:
-            last = to_etree_child(k, el)
+            last = to_etree_child(k, el, ns)
     return el
 
 
